@@ -32,6 +32,20 @@ func init() {
 var c18Runes = []rune("abcxyzABCXYZ019 _-ıſßİǅǆKɐⱥῃµÿŸéÉàÀσςΣдДﬁ\u0080\u0081ÿĀſKⱥῃ😀𐐨𐐀%.*+?()[]{}|^$\\")
 
 func c18Cell(rng *rand.Rand) string {
+	s := c18Cell0(rng)
+	if rng.Intn(12) == 0 {
+		// line breaks inside, in front of and behind the text
+		rs := []rune(s)
+		at := rng.Intn(len(rs) + 1)
+		if rng.Intn(3) == 0 {
+			at = len(rs)
+		}
+		s = string(rs[:at]) + "\n" + string(rs[at:])
+	}
+	return s
+}
+
+func c18Cell0(rng *rand.Rand) string {
 	n := rng.Intn(9)
 	switch rng.Intn(20) {
 	case 0:
@@ -131,6 +145,11 @@ func c18Pattern(rng *rand.Rand, cells []string) string {
 	if strings.ContainsAny(lit, ".*+?()[]{}|^$\\") && rng.Intn(2) == 0 {
 		// the literal with every metacharacter escaped: still a regular expression by the rule of the property
 		lit = regexp.QuoteMeta(lit)
+	}
+	if rng.Intn(8) == 0 {
+		// the regular-expression spelling of the wildcards: ".*" does not cross line breaks and "$" is the very end
+		q := regexp.QuoteMeta(lit)
+		return []string{".*" + q + ".*", ".*" + q, q + ".*", "%" + q + ".*", ".*" + q + "%", ".+" + q, q + ".?"}[rng.Intn(7)]
 	}
 	switch rng.Intn(4) {
 	case 0:
